@@ -8,7 +8,7 @@ for f in sorted(glob.glob('/verif/seeded/*/meta.json')):
     m = json.load(open(f))
     c = m['caught_by'].replace('|', '/').replace('\n', ' ')
     n = m['needs_to_manifest'].replace('|', '/').replace('\n', ' ')
-    first = 'missed, then caught' if ('MISSED' in c or 'after a first miss' in c or 'first run' in c or 'no-failing-input-found' in c or 'at first' in c or 'rebased' in m) else 'caught'
+    first = 'missed, then caught' if ('MISSED' in c or 'after a first miss' in c or 'first run' in c or 'no-failing-input-found' in c or 'at first' in c or 'after strengthening' in c or 'rebased' in m) else 'caught'
     missed += first != 'caught'
     rows.append("| %s | %s | %s | %s |" % (m['id'], n[:170], first, c[:330]))
 head = "| seed | needs, to show | first run | caught by |\n|---|---|---|---|\n"
